@@ -372,7 +372,82 @@ theorem gen_str_retain_model (b : Bytes) (ans : Nat → Bool) (panicAt : Option 
   have : retain b ans panicAt = retainWith true b ans panicAt := by simp [retain, hflag]
   rw [this]; exact gen_str_retain b ans panicAt
 
+/-! ## `replace_range` -/
+
+theorem finU_ite (c : Bool) (x : SB × Outcome Unit) (s : SB) :
+    finU (if c = true then x else (s, Outcome.panic)) = if c = true then finU x else .panic := by
+  cases c <;> rfl
+
+theorem splice_fin (ovf : Bool) (b : Bytes) (sb eb : Bd) (t : Bytes) :
+    finU (RsS.bind (RsS.vec_splice ovf (sb, eb) t (b, b.length)) fun s _ => (s, Outcome.ok ())) =
+      spliceBytes (vecDrainOvf ovf) b sb eb t := by
+  unfold RsS.vec_splice
+  simp only [text_full]
+  have hsb : ∀ r, spliceBytes (vecDrainOvf ovf) b sb eb t = r → (r = .panic ∨ ∃ x, r = .ok x) := by
+    intro r hr
+    subst hr
+    unfold spliceBytes
+    cases rangeStart (vecDrainOvf ovf) sb <;> simp
+    cases rangeEnd (vecDrainOvf ovf) b.length eb <;> simp
+    split <;> simp
+    omega
+  rcases hsb _ rfl with h | ⟨x, h⟩
+  · rw [h]; rfl
+  · rw [h]; simp [RsS.bind, finU, text]
+
+theorem replace_end (b : Bytes) (eb : Bd) (X : SB × Outcome Unit) (R : Outcome Bytes) (hs : finU X = R) (s0 : SB) :
+    finU (match eb with
+        | .incl n => (match checkedAdd n 1 with
+          | some x => (if isCharBoundary b x = true then X else (s0, Outcome.panic))
+          | none => (s0, Outcome.panic))
+        | .excl n => (if isCharBoundary b n = true then X else (s0, Outcome.panic))
+        | .unbounded => X) =
+      (match endAssert true b eb with
+       | .ok () => R
+       | _ => .panic) := by
+  cases eb with
+  | unbounded => simpa [endAssert] using hs
+  | incl m =>
+    simp only [endAssert, addOne, checkedAdd]
+    by_cases h : m + 1 < USIZE
+    · simp only [h, if_true, finU_ite, hs]
+      by_cases hb : isCharBoundary b (m + 1) = true <;> simp [hb]
+    · simp [h, finU]
+  | excl m =>
+    simp only [endAssert, finU_ite, hs]
+    by_cases hb : isCharBoundary b m = true <;> simp [hb]
+
+/-- `String::replace_range` as translated: both boundary assertions with a checked `n + 1`, then the splice of the byte
+vector (whose own `n + 1` is `Vec::drain`'s) -/
+theorem gen_str_replace_range (ovf : Bool) (b : Bytes) (sb eb : Bd) (t : Bytes) :
+    finU (Gen.Fn.str_replace_range ovf (sb, eb) t (b, b.length)) = replaceRangeWith true (vecDrainOvf ovf) b sb eb t := by
+  have hend := replace_end b eb _ _ (splice_fin ovf b sb eb t) (b, b.length)
+  unfold Gen.Fn.str_replace_range replaceRangeWith
+  simp only [text_full, List.take_length]
+  cases sb with
+  | unbounded => simp only [startAssert]; exact hend
+  | incl n =>
+    simp only [startAssert, finU_ite]
+    by_cases hn : isCharBoundary b n = true
+    · simp only [hn, if_true]; exact hend
+    · simp [hn]
+  | excl n =>
+    simp only [startAssert, addOne, checkedAdd]
+    by_cases hn1 : n + 1 < USIZE
+    · simp only [hn1, if_true, finU_ite]
+      by_cases hn : isCharBoundary b (n + 1) = true
+      · simp only [hn, if_true]; exact hend
+      · simp [hn]
+    · simp [hn1, finU]
+
+/-- … and of the model's `replaceRange`, whose "is `n + 1` checked" flag is regenerated from the source -/
+theorem gen_str_replace_range_model (ovf : Bool) (b : Bytes) (sb eb : Bd) (t : Bytes) (hflag : Gen.STR_REPLACE_RANGE_END_CHECKED = 1) :
+    finU (Gen.Fn.str_replace_range ovf (sb, eb) t (b, b.length)) = replaceRange ovf b sb eb t := by
+  have : replaceOvf ovf = true := by simp [replaceOvf, hflag]
+  rw [replaceRange, this]; exact gen_str_replace_range ovf b sb eb t
+
 #print axioms gen_str_drain
+#print axioms gen_str_replace_range
 #print axioms gen_str_drain_drop
 #print axioms gen_str_retain
 #print axioms gen_str_push
